@@ -560,6 +560,58 @@ def fos_check(case):
     return ok(True)
 
 
+# ------------------------------------------------------------------------------------------------ clause: call histories
+# Added after seeded change C20-10 (keyword solver options of one call stayed in force for every later call of the process): breadth-first
+# exploration of call histories over the SDP-backed functions; every later default call must return the value it returns from the initial
+# state.  The loose-options event is last in the menu so that no baseline value is computed after it (see mc/history.py).
+HIST_EVENTS = ["dd_unitary_pair", "dd_swapped", "cb_difference", "cb_spectral_hp", "loose_options"]
+
+
+def history_cases(tier, seed):
+    yield {"d": 2, "u": "F", "v": "g0", "depth": 2}
+    yield {"d": 2 if tier == "quick" else 3, "u": "g1", "v": "XZ" if tier == "quick" else "F", "depth": 2 if tier == "quick" else 3}
+
+
+def history_check(case):
+    from mc.history import explore
+    from toqito.channel_metrics import completely_bounded_spectral_norm, completely_bounded_trace_norm, diamond_distance
+
+    d = case["d"]
+    JU, JV = _choi_named(d, "U:" + case["u"]), _choi_named(d, "U:" + case["v"])
+    JD = _choi_named(d, "depol:0.25") - _choi_named(d, "ad:0.3") if d == 2 else _choi_named(d, "depol:0.25") - JU
+    JH = map_catalogue(d)["hp:diff:stine"] if "hp:diff:stine" in map_catalogue(d) else JD
+
+    def apply(_, ev):
+        if ev == "loose_options":
+            v, exc = call(completely_bounded_trace_norm, (JU - JV).copy(), abs_ipm_opt_tol=1e-1, rel_ipm_opt_tol=1e-1,
+                          abs_prim_fsb_tol=1e-2, rel_prim_fsb_tol=1e-2, abs_dual_fsb_tol=1e-2, rel_dual_fsb_tol=1e-2)
+            return "done" if exc is None else "EXC:" + type(exc).__name__
+        if ev == "dd_unitary_pair":
+            v, exc = call(diamond_distance, JU.copy(), JV.copy())
+        elif ev == "dd_swapped":
+            v, exc = call(diamond_distance, JV.copy(), JU.copy())
+        elif ev == "cb_difference":
+            v, exc = call(completely_bounded_trace_norm, JD.copy())
+        else:
+            v, exc = call(completely_bounded_spectral_norm, JH.copy())
+        if exc is not None:
+            return "EXC:" + type(exc).__name__
+        return round(float(np.real(v)), 6)
+
+    def same(a, b, ev):
+        if ev == "loose_options":
+            return True
+        if isinstance(a, str) or isinstance(b, str):
+            return a == b
+        return abs(a - b) <= 2 * IPM
+
+    stats, bad = explore(lambda: None, HIST_EVENTS, apply, lambda o: "stateless", lambda o, h: None, same, case["depth"])
+    for b in bad:
+        return viol(f"channel-distance call history: {b['kind']} after {b.get('history')}: {b.get('after_history', '')} vs {b.get('from_initial', '')}",
+                    site="channel_metrics_history:" + b["kind"], observed=repr(b)[:300])
+    return ok(True, obs=[stats["transitions"], stats["histories"]], states=stats["states"], transitions=stats["transitions"], histories=stats["histories"])
+
+
 CLAUSES = [
     Clause("C20.cb_bracket", cb_cases, cb_check, tol="ipm(1e-4 rel)", chunk=1, weight=0.5,
            doc="completely_bounded_trace_norm inside the certified Watrous primal/dual bracket; =1 on channels; =||Phi*(I)|| on CP maps"),
@@ -571,4 +623,7 @@ CLAUSES = [
            doc="symmetric, 1 on equal, <= output fidelity of explicit inputs (incl. Choi states), unitary-pair and replacer closed forms, local dims 2,3,4,5"),
     Clause("C20.channel_fos", fos_cases, fos_check, tol="1e-3", chunk=1, weight=1.0, probe=1,
            doc="channel fidelity of separability = 1 on pure tripartite product states; mixed / non-density / wrong dims rejected"),
+    Clause("C20.history", history_cases, history_check, tol="ipm(2e-4)", chunk=1, weight=10.0, probe=1,
+           doc="BFS over call histories of diamond_distance / cb trace norm / cb spectral norm (incl. a call with loose solver options): "
+               "every later value equals the value from the initial state"),
 ]
